@@ -33,6 +33,12 @@ def main(argv):
     ascender = font["OS/2"].sTypoAscender
     descender = font["OS/2"].sTypoDescender
 
+    # options of the maximum_color invocation, forwarded as flags
+    options = config.load()
+    clipbox_quantization = ""
+    if options.clipbox_quantization is not None:
+        clipbox_quantization = f"clipbox_quantization = {options.clipbox_quantization}"
+
     with open(config_file, "w") as f:
         f.write(
             textwrap.dedent(
@@ -44,6 +50,10 @@ def main(argv):
             ascender = {ascender}
             descender = {descender}
             keep_glyph_names = true
+            reuse_tolerance = {options.reuse_tolerance}
+            ignore_reuse_error = {str(options.ignore_reuse_error).lower()}
+            bitmap_resolution = {options.bitmap_resolution}
+            {clipbox_quantization}
 
             fea_file = ""
 
